@@ -229,7 +229,13 @@ func (s *vCliStream) RecvMsg(m interface{}) error {
 	case r := <-s.in:
 		out := m.(*Message)
 		vAssert(out.msgType == responseType, "C13.client-creates-response-type")
-		out.Metadata = r.Metadata
+		// as the codec does: metadata decoded into the message's own metadata object
+		if out.Metadata == nil {
+			out.Metadata = &ordering.Metadata{}
+		}
+		out.Metadata.MessageID = r.Metadata.MessageID
+		out.Metadata.Method = r.Metadata.Method
+		out.Metadata.Status = r.Metadata.Status
 		out.Message = r.Message
 		s.receiving = false
 		return nil
